@@ -504,3 +504,83 @@ Section Shapes.
           cbn [flat_map]. destruct g0 as [[i0 l0]|]; cbn [capture_index app nth]; exact IHn.
   Qed.
 End Shapes.
+
+(* the hypotheses of the C06 theorems, collected *)
+Section Hyps.
+  Variable len : Z.
+  Variable attempt : Z -> Z -> option mt.
+  Variable off : Z -> Z.
+  Variable M : Z -> option (list Z).
+  Variable width : Z -> Z.
+  Variable end_ num_subexp : Z.
+
+  Definition hyps : Prop :=
+    0 <= len /\ forward false len attempt /\ no_G attempt /\
+    (forall ts p m, 0 <= p <= len -> attempt ts p = Some m -> groups_ok num_subexp m) /\
+    off 0 = 0 /\ (forall i j, 0 <= i -> i < j -> j <= len -> off i < off j) /\ off len = end_ /\
+    (forall i, 0 <= i < len -> width (off i) = off (i + 1) - off i) /\ width (off len) <= 0 /\
+    bridge len attempt off M.
+End Hyps.
+
+Lemma h_find_all_submatch :
+  forall len attempt off M width end_ num_subexp,
+    hyps len attempt off M width end_ num_subexp ->
+  forall cand n, cand_ok len attempt cand ->
+    compat_find_all_string_submatch_index false len attempt off (dflt_fuel len) (dflt_fuel len) cand n
+    = Go.find_all_submatch_index M width end_ num_subexp (Go.dflt_fuel end_) n.
+Proof.
+  intros len attempt off M width end_ num_subexp (H1 & H2 & H3 & H4 & H5 & H6 & H7 & H8 & H9 & H10) cand n Hc.
+  eapply compat_find_all_submatch_eq; eassumption.
+Qed.
+
+Lemma h_find_all_index :
+  forall len attempt off M width end_ num_subexp,
+    hyps len attempt off M width end_ num_subexp ->
+  forall n,
+    compat_find_all_index false len attempt off (dflt_fuel len) (dflt_fuel len) n
+    = Go.find_all_index M width end_ num_subexp (Go.dflt_fuel end_) n.
+Proof.
+  intros len attempt off M width end_ num_subexp (H1 & H2 & H3 & H4 & H5 & H6 & H7 & H8 & H9 & H10) n.
+  eapply compat_find_all_index_eq; eassumption.
+Qed.
+
+Lemma h_find_all_string_index :
+  forall len attempt off M width end_ num_subexp,
+    hyps len attempt off M width end_ num_subexp ->
+  forall cand n, cand_ok len attempt cand ->
+    compat_find_all_string_index false len attempt (dflt_fuel len) (dflt_fuel len) cand off n
+    = Go.find_all_index M width end_ num_subexp (Go.dflt_fuel end_) n.
+Proof.
+  intros len attempt off M width end_ num_subexp (H1 & H2 & H3 & H4 & H5 & H6 & H7 & H8 & H9 & H10) cand n Hc.
+  eapply compat_find_all_string_index_eq; eassumption.
+Qed.
+
+Lemma h_find_single :
+  forall len attempt off M width end_ num_subexp,
+    hyps len attempt off M width end_ num_subexp ->
+  forall cand, cand_ok len attempt cand ->
+    compat_find_string_submatch_index false len attempt off (dflt_fuel len) cand = Ok (Go.find_submatch_index M num_subexp) /\
+    compat_find_string_index false len attempt off (dflt_fuel len) cand = Ok (Go.find_index M).
+Proof.
+  intros len attempt off M width end_ num_subexp (H1 & H2 & H3 & H4 & H5 & H6 & H7 & H8 & H9 & H10) cand Hc.
+  split.
+  - eapply compat_find_submatch_eq; eassumption.
+  - eapply compat_find_index_eq; eassumption.
+Qed.
+
+Lemma h_summary :
+  forall len attempt off M width end_ num_subexp,
+    hyps len attempt off M width end_ num_subexp ->
+  forall cand n, cand_ok len attempt cand ->
+    compat_find_all_string_submatch_index false len attempt off (dflt_fuel len) (dflt_fuel len) cand n
+      = Go.find_all_submatch_index M width end_ num_subexp (Go.dflt_fuel end_) n /\
+    compat_find_all_index false len attempt off (dflt_fuel len) (dflt_fuel len) n
+      = Go.find_all_index M width end_ num_subexp (Go.dflt_fuel end_) n /\
+    compat_find_all_string_index false len attempt (dflt_fuel len) (dflt_fuel len) cand off n
+      = Go.find_all_index M width end_ num_subexp (Go.dflt_fuel end_) n.
+Proof.
+  intros len attempt off M width end_ num_subexp H cand n Hc. split; [|split].
+  - apply h_find_all_submatch; assumption.
+  - apply h_find_all_index; assumption.
+  - apply h_find_all_string_index; assumption.
+Qed.
